@@ -383,7 +383,21 @@ func (g *Gen) check(prop, tier, outDir string, timeoutMS, seed, par int, verbose
 			continue
 		}
 		fv := g.newFuncVC(f, c)
-		fv.Generate()
+		if crashed := func() (msg string) {
+			defer func() {
+				if r := recover(); r != nil {
+					msg = fmt.Sprint(r)
+				}
+			}()
+			fv.Generate()
+			return ""
+		}(); crashed != "" {
+			// the generator cannot translate the function as it now stands (a construct outside the subset that
+			// it does not even recognise): its obligations cannot be generated, so the property is not established
+			res.AnchorLost = append(res.AnchorLost, &OblReport{Name: k + "#anchor#not-translatable", Kind: "anchor", Expect: "unsat", Verdict: "not-generated",
+				Clause: "function " + k + " carries contract obligations for this property but could not be translated: " + crashed})
+			continue
+		}
 		// missing loop invariants / lost anchors
 		for ord := range c.Loops {
 			found := false
@@ -434,11 +448,16 @@ func (g *Gen) check(prop, tier, outDir string, timeoutMS, seed, par int, verbose
 	lem := g.lemmaObligations(prop)
 	obls = append(obls, lem...)
 	obls = append(obls, g.writersObligations(prop)...)
+	obls = append(obls, g.tableObligations(prop)...)
 	if len(res.ToolErrors) > 0 {
 		return res
 	}
 	os.RemoveAll(outDir)
+	tGen := time.Now()
 	g.solveAll(obls, outDir, timeoutMS, seed, par)
+	if os.Getenv("VERIF_TIMING") != "" {
+		fmt.Printf("timing: %d obligations generated, solving took %.1fs\n", len(obls), time.Since(tGen).Seconds())
+	}
 	res.obls = obls
 	canaryTotal := map[string]int{}
 	canaryDead := map[string][]*OblReport{}
